@@ -746,8 +746,10 @@ class Exec:
         m = getattr(self, "stmt_" + type(stmt).__name__, None)
         if m is None:
             raise Unsupported("statement %s at line %d" % (type(stmt).__name__, stmt.lineno))
-        outs = m(st, stmt)
         a = self.stmt_anchor(stmt)
+        if a and self.has_anchor("before:" + a[6:]):
+            self.apply_anchor(st, "before:" + a[6:])
+        outs = m(st, stmt)
         if a and self.has_anchor(a):
             for (s2, kind, val) in outs:
                 if kind == "next":
@@ -827,7 +829,7 @@ class Exec:
         rest = [o for o in oa + ob if o[1] != "next"]
         has_loop = any(isinstance(x, (ast.While, ast.For)) for b in (stmt.body, stmt.orelse) for y in b
                        for x in ast.walk(y))
-        if len(na) == 1 and len(nb) == 1 and not has_loop:
+        if len(na) == 1 and len(nb) == 1 and not has_loop and not (self.contract.split and not self.cur_fn_stack):
             # drop the branch condition itself from the extras (it is re-expressed by the implication)
             try:
                 m = merge_states(cond, na[0][0], nb[0][0], base_len)
@@ -839,8 +841,20 @@ class Exec:
     # ---------------- loops
 
     def next_loop_spec(self, kind, var, stmt):
-        i = self.loop_counter
-        self.loop_counter += 1
+        if not hasattr(self, "loop_index"):
+            self.loop_index = {}
+            k = 0
+            for n in ast.walk(self.fn):      # breadth-first; sort by source position for a stable pre-order
+                pass
+            loops = sorted([n for n in ast.walk(self.fn) if isinstance(n, (ast.While, ast.For))],
+                           key=lambda n: (n.lineno, n.col_offset))
+            for k, n in enumerate(loops):
+                self.loop_index[id(n)] = k
+        if id(stmt) not in self.loop_index:
+            # a loop of an inlined callee: no sidecar invariant
+            self.extra_loops = getattr(self, "extra_loops", 1000) + 1
+            return self.extra_loops, None
+        i = self.loop_index[id(stmt)]
         specs = self.contract.loops
         if i >= len(specs):
             return i, None
@@ -995,6 +1009,10 @@ class Exec:
             itst.path.append(L.to_z3_bool(c_it))
             if head:
                 head(itst)
+            cov = Obligation("%s/cover/%s/body-reachable" % (self.qualname, anchor), "cover", False, list(itst.pc),
+                             getattr(stmt, "lineno", 0), "")
+            cov.defs = self.defs
+            self.obligations.append(cov)
             body_outs = self.exec_block(itst, body)
             for (s2, kind, val) in body_outs:
                 if kind in ("next", "continue"):
@@ -1010,8 +1028,7 @@ class Exec:
                 else:
                     outs.append((s2, kind, val))
         else:
-            # still need to advance the loop counter over nested loops
-            self.loop_counter = saved_counter + self.count_loops(body)
+            pass
         if c_ex is not True:
             ex.assume(L.neg(c_ex))
             ex.path.append(L.to_z3_bool(L.neg(c_ex)))
@@ -1081,7 +1098,16 @@ class Exec:
             self._modset_stmt(st, s, loc, heap)
         return loc, heap
 
-    def _modset_stmt(self, st, s, loc, heap):
+    def _modset_stmt(self, st, s, loc, heap, ghost=True):
+        if ghost:
+            # ghost statements anchored at (sub)statements of this one are part of the loop body too
+            for n in ast.walk(s):
+                if isinstance(n, ast.stmt):
+                    a = self.stmt_anchor(n)
+                    for (ga, src) in self.contract.ghost:
+                        if ga == a:
+                            for gs in ast.parse(src).body:
+                                self._modset_stmt(st, gs, loc, heap, ghost=False)
         for n in ast.walk(s):
             if isinstance(n, (ast.Assign, ast.AugAssign, ast.AnnAssign, ast.For)):
                 tgts = n.targets if isinstance(n, ast.Assign) else [n.target]
